@@ -16,10 +16,11 @@ PROP = dict(
     ],
     partial="goquery / golang.org/x/net/html, net/url (resolveURL), ada (NormalizeURL), encoding/json and xurls are oracles: the theorems are over DOMs and over reference ASTs of the simple forms; "
             "the driver checks on every document that the real parser reads the rendering back to the generated DOM and records the oracles' answers. No theorem covers arbitrary bytes.",
-    assumptions=["the HTML parser reads the rendering of a generated DOM back to that DOM (checked node by node on every case)",
+    assumptions=["extractOutlinks reaches the HTML extractor unless is_s3(Server, Content-Type) (transcribed in Html.v, after the repair C07-s3-xhtml: XHTML is not claimed by IsS3)",
+                 "the HTML parser reads the rendering of a generated DOM back to that DOM (checked node by node on every case)",
                  "on simple references NormalizeURL (ada) returns the RFC 3986 section 5.2 resolution against the parent it is given (checked on every planted reference by monitor 2, on every redirect hop by monitor 4)",
                  "the two CSS regular expressions match what Scan.bg_scan / Scan.css_scan say on valid UTF-8, and srcsetURLs what Scan.ss_scan says (checked by the edge stream)"],
     level_text="Theorems for all DOMs, all configurations (disable-html-tag, capture-alternate-pages, disable-assets-capture, max-hops) and all item states: every URL planted in a standard embedding attribute "
-               "is extracted unless a NAMED exclusion applies, anchors become outlinks under the hop guard, redirects do not count for the depth limit and the base of resolution moves along a redirect chain to the page (all chain lengths), the srcset splitter (HTML's algorithm: commas inside URLs, any ASCII white space before descriptors) and the two url() scanners are complete on well-formed values; the code before the C07 repairs is kept as _orig definitions with refutation witnesses; "
+               "is extracted unless a NAMED exclusion applies, anchors become outlinks under the hop guard, the S3 listing decoder only gets XML content types (anchors of an HTML page are handed on whatever the Server header says), redirects do not count for the depth limit and the base of resolution moves along a redirect chain to the page (all chain lengths), the srcset splitter (HTML's algorithm: commas inside URLs, any ASCII white space before descriptors) and the two url() scanners are complete on well-formed values; the code before the C07 repairs is kept as _orig definitions with refutation witnesses; "
                "tied to HTMLAssets/HTMLOutlinks/postprocessItem/NormalizeURL by a differential check on generated documents.",
 )
